@@ -27,7 +27,7 @@ RULE = ('histories over a pool of 13 trees (elisions, nested scopes, comments, t
         'a case = one history; non-trivial = it has at least two operations touching one printer or tree; distinct by '
         'the operation sequence.')
 ASSUMPTIONS = ['behaviour of a generator after it raised, and identity (as opposed to equality) of fragments, are not demanded']
-BUDGET_S = {'quick': 60, 'thorough': 600}
+BUDGET_S = {'quick': 120, 'thorough': 600}
 REQUIRED_HITS = ['full', 'abandon', 'raise', 'shortcut', 'str', 'fingerprints_compared', 'Indentator()', 'Obfuscator()',
                  'shortcut_history_step', 'interleave']
 FLOOR = {'quick': 200, 'thorough': 2000}
